@@ -217,7 +217,20 @@ def holdsC09 (h : History) (tr : ImplTrace) : Verdict := Id.run do
             | _ => false)
           | .slot _ => true
           | _ => false
+        -- F13: a `map_ref` (chain) over a `map_with_old` node cannot consult its cutoff (the machine consumes
+        -- the old value, so `child_changed` gets none and must assume a change)
+        let rec viaOld (fuel : Nat) (k : Nat) : Bool := match fuel with
+          | 0 => false
+          | fuel+1 => match sh.prog.nodes[k]? with
+            | some (.mapRef _ (.outer j)) => (match sh.prog.nodes[j]? with
+              | some (.mapWithOld _ _) => true
+              | some (.mapRef _ _) => viaOld fuel j
+              | _ => false)
+            | _ => false
+        let f13 := match node with | .outer k => viaOld 50 k | _ => false
         if v == last && !(custom.contains node) && !ownCutoff then
+          if f13 then
+            return some s!"F13 action {idx}: t{t} on a map_ref over map_with_old got Changed({v}) although the projection did not change"
           return some s!"action {idx}: t{t} got Changed({v}) but the value did not change"
       if k != "Invalidated" then
         let got := (rec_.reads.lookup o).getD "missing"
@@ -305,8 +318,18 @@ def holdsC05 (h : History) (tr : ImplTrace) : Verdict := Id.run do
       let cPre := cone pre.snaps roots
       let cPost := cone rec_.snaps roots
       let is := (invs rec_).filter (isUserFn ·.1)
+      -- structure changes made in this stabilise: bind closures that ran, observability changes of expert nodes,
+      -- and every dependency-rewiring effect (`xadd`/`xrm`/`xsel`/`xinval`) of the functions that ran
+      let nRewire := (is.map fun (f, _, _, _) =>
+        if f.startsWith "f" then
+          match (f.drop 1).toString.toNat? with
+          | some fi => (((h.defs.fns.lookup fi).map (·.effects)).getD []).countP fun e => match e with
+              | .xAdd .. | .xRm .. | .xSel .. | .xInval .. => true
+              | _ => false
+          | none => 0
+        else 0).foldl (· + ·) 0
       let nBind := (is.filter fun x => x.1.startsWith "b").length
-        + (rec_.evs.filter fun e => e.startsWith "note obschange").length
+        + (rec_.evs.filter fun e => e.startsWith "note obschange").length + nRewire
       if roots.isEmpty && !is.isEmpty then
         return some s!"action {idx}: node functions ran with no live observer"
       for (f, n, _, _) in is do
@@ -862,9 +885,17 @@ def holdsC14 (h : History) (tr : ImplTrace) : Verdict := Id.run do
   let mut wasInvalidated : List Nat := []      -- experts invalidated on purpose (xinval)
   let mut pendingStale : List Nat := []        -- experts that were told `make_stale` and have not recomputed since
   -- the value check needs cutoffs that only suppress equal values (otherwise stale sums are legitimate)
-  let exactCutoffs := h.actions.all fun a => match a with
+  -- a `map_with_old` machine that reports "unchanged" whatever happens (`flag 0`) suppresses unequal values like
+  -- `Cutoff::Always`: stale sums downstream of it are legitimate
+  let lying (g : Nat) : Bool := match h.defs.olds.lookup g with | some (.flag false) => true | _ => false
+  let exactCutoffs := (h.actions.all fun a => match a with
     | .create (.cutoff _ c) => c == .eq || c == .never
-    | _ => true
+    | .create (.mapWithOld g _) => !lying g
+    | _ => true)
+    && h.defs.bodies.all fun b => b.2.2.all fun t => t.instrs.all fun i => match i with
+      | .mapWithOld g _ => !lying g
+      | .cutoff _ c => c == .eq || c == .never
+      | _ => true
   for a in h.actions do
     let rec_ := tr[idx]?.getD {}
     sh := (sh.step a idx rec_.api).scoped h rec_
